@@ -235,6 +235,11 @@ theorem runActs_keeps (f : Field) (arg : Str) (acts : List Act) (s : St) (hk : a
       · rw [if_neg hz]; exact ih _ hrest h
     | setStr g => exact ih _ hrest h
     | rule p => exact ih _ hrest h
+    | ruleChecked =>
+      simp only [runActs]
+      split
+      · exact ih _ hrest h
+      · trivial
     | words w =>
       simp only [runActs]
       cases w <;> simp only [] <;> split
